@@ -53,7 +53,11 @@ impl Distribution for Uniform {
 
 impl Distribution1D for Uniform {
     fn update(&mut self, params: &[f64]) {
-        self.set_lower(params[0]).set_upper(params[1]);
+        if params[0] > params[1] {
+            panic!("Upper must be larger than lower.")
+        }
+        self.lower = params[0];
+        self.upper = params[1];
     }
 }
 
